@@ -89,7 +89,7 @@ func run() (code int) {
 	if *flagRule != "" {
 		names := strings.Split(*flagRule, ",")
 		p := Load(*flagRepo, false)
-		bad := 0
+		bad, undec := 0, 0
 		for _, n := range names {
 			rule := rules[n]
 			if rule == nil {
@@ -99,12 +99,16 @@ func run() (code int) {
 			res := runRule(p, rule)
 			printResult(res, true)
 			if res.Undecided != "" {
-				return 2
+				undec++
 			}
 			bad += len(res.Findings)
 		}
+		// as for a property: a report wins over an undecided
 		if bad > 0 {
 			return 1
+		}
+		if undec > 0 {
+			return 2
 		}
 		return 0
 	}
